@@ -175,7 +175,7 @@ def seq_method(V, s, name, args, kwargs, st, node):
             exists = z3.Exists([j], z3.And(j >= 0, j < n, eqf(s.z[j], args[0].z)))
             V.may_raise(st, exists, 'ValueError', 'list.index(x): x not in list', node)
             st.assume(z3.And(i >= 0, i < n, eqf(s.z[i], args[0].z)))
-            st.assume(z3.ForAll([j], z3.Implies(z3.And(j >= 0, j < i), z3.Not(eqf(s.z[j], args[0].z)))))
+            st.fact(z3.ForAll([j], z3.Implies(z3.And(j >= 0, j < i), z3.Not(eqf(s.z[j], args[0].z)))))
             return SV(INT, i)
         if isinstance(s, SV):
             x = pack(args[0], s.t.elem)
